@@ -184,10 +184,43 @@ func path(v ssa.Value, d int) string {
 	}
 	switch x := v.(type) {
 	case *ssa.Parameter:
+		for k := len(inlineEnv) - 1; k >= 0; k-- {
+			if s, ok := inlineEnv[k][x]; ok {
+				return s
+			}
+		}
+		idx := -1
 		for i, p := range x.Parent().Params {
 			if p == x {
-				return fmt.Sprintf("$%d", i)
+				idx = i
 			}
+		}
+		if idx >= 0 && d < 20 {
+			if sites := HelperSites(x.Parent()); len(sites) > 0 {
+				// a transparent helper's parameter is the caller's argument when all call sites agree
+				common := ""
+				for i, cs := range sites {
+					if idx >= len(cs.Call.Args) {
+						common = ""
+						break
+					}
+					saved := inlineEnv
+					inlineEnv = nil
+					a := path(cs.Call.Args[idx], d+1)
+					inlineEnv = saved
+					if i > 0 && a != common {
+						common = ""
+						break
+					}
+					common = a
+				}
+				if common != "" {
+					return common
+				}
+			}
+		}
+		if idx >= 0 {
+			return fmt.Sprintf("$%d", idx)
 		}
 		return "$" + x.Name()
 	case *ssa.FreeVar:
@@ -407,6 +440,20 @@ func callPath(c *ssa.CallCommon, d int) string {
 	case *ssa.Builtin:
 		return f.Name() + "(" + strings.Join(args, ",") + ")"
 	case *ssa.Function:
+		if rv := trivialHelperResult(f); rv != nil && d < 20 {
+			// a one-block, effect-free, unexported helper of the module is transparent: its result is
+			// rendered in the caller's frame (extracting `clock.Increment() - 1` into a helper changes no path)
+			env := map[*ssa.Parameter]string{}
+			for i, p := range f.Params {
+				if i < len(args) {
+					env[p] = args[i]
+				}
+			}
+			inlineEnv = append(inlineEnv, env)
+			s := path(rv, d+1)
+			inlineEnv = inlineEnv[:len(inlineEnv)-1]
+			return s
+		}
 		return CalleeName(f) + "(" + strings.Join(args, ",") + ")"
 	case *ssa.MakeClosure:
 		if fn, ok := f.Fn.(*ssa.Function); ok {
@@ -416,6 +463,41 @@ func callPath(c *ssa.CallCommon, d int) string {
 	return "dyn:" + path(c.Value, d+1) + "(" + strings.Join(args, ",") + ")"
 }
 
+// OpaqueHelpers names the repository's own one-line helpers that rules refer to by name
+// (they are vocabulary, not incidental structure) and that are therefore never rendered inline.
+var OpaqueHelpers = map[string]bool{"eventClean": true, "(*Coordinate).rawDistanceTo": true}
+
+// inlineEnv is the stack of parameter bindings of the helpers being rendered.
+var inlineEnv []map[*ssa.Parameter]string
+
+// trivialHelperResult returns the single result value of f when f is an unexported module function
+// consisting of one block without stores, sends, map updates, go/defer statements or panics, ending
+// in a one-value return; nil otherwise.
+func trivialHelperResult(f *ssa.Function) ssa.Value {
+	if f == nil || !InModule(f) || f.Synthetic != "" || len(f.Blocks) != 1 || f.Recover != nil || f.Parent() != nil {
+		return nil
+	}
+	if token.IsExported(f.Name()) || OpaqueHelpers[FuncName(f)] {
+		return nil
+	}
+	var ret *ssa.Return
+	for _, in := range f.Blocks[0].Instrs {
+		switch x := in.(type) {
+		case *ssa.Store, *ssa.MapUpdate, *ssa.Send, *ssa.Go, *ssa.Defer, *ssa.RunDefers, *ssa.Panic, *ssa.Select, *ssa.Alloc, *ssa.MakeClosure:
+			return nil
+		case *ssa.Return:
+			ret = x
+		}
+	}
+	if ret == nil || len(ret.Results) != 1 {
+		return nil
+	}
+	return ret.Results[0]
+}
+
+// TrivialHelperResult is trivialHelperResult for rule code.
+func TrivialHelperResult(f *ssa.Function) ssa.Value { return trivialHelperResult(f) }
+
 // CalleeName names a callee: module functions by FuncName, others by
 // pkgname.FuncName (e.g. strings.HasPrefix, (*sync.Mutex).Lock →
 // sync.(*Mutex).Lock).
@@ -424,7 +506,7 @@ func CalleeName(f *ssa.Function) string {
 		return "<nil>"
 	}
 	if InModule(f) {
-		return FuncName(f)
+		return rawFuncName(f)
 	}
 	pk := ""
 	if f.Pkg != nil {
@@ -542,6 +624,24 @@ func CondFacts(cond ssa.Value, branch bool) []Cmp {
 		if x.Op == token.NOT {
 			return CondFacts(x.X, !branch)
 		}
+	case *ssa.Call:
+		// a transparent predicate helper: the facts of its result expression, in the caller's frame
+		if f := StaticCallee(&x.Call); f != nil {
+			if rv := trivialHelperResult(f); rv != nil {
+				if _, isCmp := rv.(*ssa.BinOp); isCmp {
+					env := map[*ssa.Parameter]string{}
+					for i, p := range f.Params {
+						if i < len(x.Call.Args) {
+							env[p] = Path(x.Call.Args[i])
+						}
+					}
+					inlineEnv = append(inlineEnv, env)
+					fs := CondFacts(rv, branch)
+					inlineEnv = inlineEnv[:len(inlineEnv)-1]
+					return fs
+				}
+			}
+		}
 	}
 	b := "c:false"
 	if branch {
@@ -561,6 +661,13 @@ func (e Edge) To() *ssa.BasicBlock { return e.From.Succs[e.Succ] }
 // EdgeFacts lists, for every conditional edge of fn, the facts it establishes.
 func EdgeFacts(fn *ssa.Function) map[Edge][]Cmp {
 	out := map[Edge][]Cmp{}
+	for _, g := range deepFuncs(fn) {
+		edgeFactsOf(g, out)
+	}
+	return out
+}
+
+func edgeFactsOf(fn *ssa.Function, out map[Edge][]Cmp) {
 	for _, b := range fn.Blocks {
 		if len(b.Instrs) == 0 {
 			continue
@@ -570,12 +677,19 @@ func EdgeFacts(fn *ssa.Function) map[Edge][]Cmp {
 			out[Edge{b, 1}] = CondFacts(i.Cond, false)
 		}
 	}
-	return out
 }
 
 // EdgesWhere returns the conditional edges of fn on which some established
 // fact satisfies pred.
 func EdgesWhere(fn *ssa.Function, pred func(Cmp) bool) []Edge {
+	var out []Edge
+	for _, g := range deepFuncs(fn) {
+		out = append(out, edgesWhereOf(g, pred)...)
+	}
+	return out
+}
+
+func edgesWhereOf(fn *ssa.Function, pred func(Cmp) bool) []Edge {
 	var out []Edge
 	for _, b := range fn.Blocks {
 		if len(b.Instrs) == 0 {
@@ -630,26 +744,42 @@ func ReachFrom(fn *ssa.Function, from ssa.Instruction, cut *Cut, target func(ssa
 	if len(fn.Blocks) == 0 {
 		return nil
 	}
+	r := &reacher{root: fn, cut: cut, target: target, callee: map[*ssa.Function]*calleeResult{}, upSeen: map[ssa.Instruction]bool{}}
+	if from == nil {
+		found, _ := r.run(fn.Blocks[0], 0)
+		return found
+	}
+	return r.after(from)
+}
+
+// reacher explores the CFG of a function and, at plain calls of transparent helpers, the helper's
+// CFG: the search continues after such a call only if the helper can reach a normal return without
+// crossing the cut.
+type reacher struct {
+	root   *ssa.Function
+	cut    *Cut
+	target func(ssa.Instruction) bool
+	callee map[*ssa.Function]*calleeResult
+	upSeen map[ssa.Instruction]bool
+}
+
+type calleeResult struct {
+	found ssa.Instruction
+	exits bool
+	busy  bool
+}
+
+// run explores from instruction i of block b0 inside b0's function; it returns the first target
+// found and whether a normal return of that function is reachable.
+func (r *reacher) run(b0 *ssa.BasicBlock, i0 int) (ssa.Instruction, bool) {
 	type start struct {
 		b *ssa.BasicBlock
 		i int
 	}
-	st := start{fn.Blocks[0], 0}
-	if from != nil {
-		b := from.Block()
-		idx := -1
-		for i, in := range b.Instrs {
-			if in == from {
-				idx = i
-				break
-			}
-		}
-		st = start{b, idx + 1}
-	}
 	seen := map[*ssa.BasicBlock]bool{}
-	var work []start
-	work = append(work, st)
+	work := []start{{b0, i0}}
 	first := true
+	exits := false
 	for len(work) > 0 {
 		s := work[len(work)-1]
 		work = work[:len(work)-1]
@@ -665,22 +795,80 @@ func ReachFrom(fn *ssa.Function, from ssa.Instruction, cut *Cut, target func(ssa
 		stopped := false
 		for i := s.i; i < len(s.b.Instrs); i++ {
 			in := s.b.Instrs[i]
-			if target(in) {
-				return in
+			if ret, ok := in.(*ssa.Return); ok && in.Parent() != r.root {
+				// a helper's return is not an exit of the function under analysis
+				if ret.Block().Comment != "recover" {
+					exits = true
+				}
+				continue
 			}
-			if cut != nil && cut.Instrs != nil && cut.Instrs(in) {
+			if r.target(in) {
+				return in, exits
+			}
+			if r.cut != nil && r.cut.Instrs != nil && r.cut.Instrs(in) {
 				stopped = true
 				break
+			}
+			if h := transparentCallee(in); h != nil {
+				res := r.callee[h]
+				if res == nil {
+					res = &calleeResult{busy: true, exits: true}
+					r.callee[h] = res
+					f, ex := r.run(h.Blocks[0], 0)
+					res.found, res.exits, res.busy = f, ex, false
+				}
+				if res.found != nil {
+					return res.found, exits
+				}
+				if !res.exits {
+					stopped = true
+					break
+				}
+			}
+			if ret, ok := in.(*ssa.Return); ok && ret.Block().Comment != "recover" {
+				exits = true
 			}
 		}
 		if stopped {
 			continue
 		}
 		for k, succ := range s.b.Succs {
-			if cut.edgeCut(s.b, k) {
+			if r.cut.edgeCut(s.b, k) {
 				continue
 			}
 			work = append(work, start{succ, 0})
+		}
+	}
+	return nil, exits
+}
+
+// after explores from the instruction following `from`; when `from` lives in a transparent helper
+// and the helper can return, the search continues after each of its call sites under the root.
+func (r *reacher) after(from ssa.Instruction) ssa.Instruction {
+	if r.upSeen[from] {
+		return nil
+	}
+	r.upSeen[from] = true
+	b := from.Block()
+	idx := -1
+	for i, in := range b.Instrs {
+		if in == from {
+			idx = i
+			break
+		}
+	}
+	found, exits := r.run(b, idx+1)
+	if found != nil {
+		return found
+	}
+	g := from.Parent()
+	if exits && g != r.root && Transparent(g) {
+		for _, cs := range helperSites[g] {
+			if inDeep(r.root, cs.Parent()) {
+				if f := r.after(cs); f != nil {
+					return f
+				}
+			}
 		}
 	}
 	return nil
@@ -712,7 +900,19 @@ func Guarded(fn *ssa.Function, target ssa.Instruction, edges []Edge) bool {
 
 // GuardedBy reports whether target is guarded by a fact implying want.
 func GuardedBy(fn *ssa.Function, target ssa.Instruction, want Cmp) bool {
-	return Guarded(fn, target, EdgesImplying(fn, want))
+	if Guarded(fn, target, EdgesImplying(fn, want)) {
+		return true
+	}
+	// asked in the frame of a transparent helper: every call site may carry the guard instead
+	if sites := HelperSites(fn); len(sites) > 0 && target.Parent() == fn {
+		for _, cs := range sites {
+			if !GuardedBy(cs.Parent(), cs, want) {
+				return false
+			}
+		}
+		return true
+	}
+	return false
 }
 
 // IsExit reports whether in ends the function normally (return). Panics are
@@ -751,6 +951,23 @@ func Reaches(fn *ssa.Function, from, to ssa.Instruction) bool {
 // Dominates reports whether instruction a dominates instruction b (same
 // function).
 func Dominates(a, b ssa.Instruction) bool {
+	if a.Parent() != b.Parent() {
+		// one of them lives in a transparent helper: a dominates b when b is unreachable from the entry of a
+		// common owner once a is removed (and b is reachable at all)
+		for _, ra := range Owners(a.Parent()) {
+			for _, rb := range Owners(b.Parent()) {
+				if ra != rb {
+					continue
+				}
+				isB := func(in ssa.Instruction) bool { return in == b }
+				if ReachFrom(ra, nil, nil, isB) == nil {
+					return false
+				}
+				return ReachFrom(ra, nil, &Cut{Instrs: func(in ssa.Instruction) bool { return in == a }}, isB) == nil
+			}
+		}
+		return false
+	}
 	ba, bb := a.Block(), b.Block()
 	if ba == bb {
 		for _, in := range ba.Instrs {
@@ -771,6 +988,21 @@ func Dominates(a, b ssa.Instruction) bool {
 
 // Instrs calls f for every instruction of fn.
 func Instrs(fn *ssa.Function, f func(ssa.Instruction)) {
+	for _, g := range deepFuncs(fn) {
+		for _, b := range g.Blocks {
+			for _, in := range b.Instrs {
+				if _, isRet := in.(*ssa.Return); isRet && g != fn {
+					continue // a helper's return is not a return of fn
+				}
+				f(in)
+			}
+		}
+	}
+}
+
+// InstrsShallow visits the instructions of fn only (no transparent helpers): for scans that
+// already iterate over every function of a package.
+func InstrsShallow(fn *ssa.Function, f func(ssa.Instruction)) {
 	for _, b := range fn.Blocks {
 		for _, in := range b.Instrs {
 			f(in)
